@@ -587,6 +587,116 @@ def partPath (parent name : String) (base : Option String) (part : Nat) : String
   let root := match base with | none => parent | some b => b
   root ++ "/." ++ name ++ ".parts/" ++ partFileName part
 
+/-! ## Several sinks on one file system (`MPUFileSink.__init__`, _mpu_fs.py:21-35) -/
+
+/-- `MPUFileSink(dst = dir/name, parts_base = base)` -/
+structure SinkCfg where
+  dir : String
+  name : String
+  base : Option String := none
+  deriving DecidableEq, Repr
+
+/-- where the hidden parts directory is created: `dst.parent`, or `parts_base` when given -/
+def SinkCfg.root (c : SinkCfg) : String :=
+  match c.base with
+  | none => c.dir
+  | some b => b
+
+/-- the hidden parts directory `root/.{dst.name}.parts`, identified by `(root, dst.name)`: the FULL
+name of the destination (suffixes included), not its stem -/
+def SinkCfg.pkey (c : SinkCfg) : String × String := (c.root, c.name)
+
+/-- the destination file `dir/name` -/
+def SinkCfg.dkey (c : SinkCfg) : String × String := (c.dir, c.name)
+
+/-- the directory's path as text (what `partPath` prefixes the part file names with) -/
+def SinkCfg.partsDirPath (c : SinkCfg) : String := c.root ++ "/." ++ c.name ++ ".parts"
+
+/-- association lists as the file system's tables -/
+def tblSet {κ β : Type} [BEq κ] (k : κ) (v : β) (l : List (κ × β)) : List (κ × β) :=
+  (k, v) :: l.filter (fun q => !(q.1 == k))
+
+def tblErase {κ β : Type} [BEq κ] (k : κ) (l : List (κ × β)) : List (κ × β) :=
+  l.filter (fun q => !(q.1 == k))
+
+/-- The part of the file system that sinks touch: regular files by `(dir, name)` and hidden
+parts directories by `(root, destination name)` with their part files.  (A destination that is
+itself named like another sink's parts directory, `.n.parts`, is outside the model.) -/
+structure FS where
+  files : List ((String × String) × Bytes) := []
+  pdirs : List ((String × String) × List (Nat × Bytes)) := []
+  deriving Repr
+
+/-- what sink `c` sees of the file system -/
+def FS.view (fs : FS) (c : SinkCfg) : Sink :=
+  { dirExists := (fs.pdirs.lookup c.pkey).isSome,
+    parts := match fs.pdirs.lookup c.pkey with | some ps => ps | none => [],
+    dst := fs.files.lookup c.dkey }
+
+/-- write sink `c`'s view back -/
+def FS.store (fs : FS) (c : SinkCfg) (s : Sink) : FS :=
+  { files := match s.dst with
+             | some b => tblSet c.dkey b fs.files
+             | none => tblErase c.dkey fs.files,
+    pdirs := if s.dirExists then tblSet c.pkey s.parts fs.pdirs else tblErase c.pkey fs.pdirs }
+
+/-- `sink(part, data)` of sink `c` -/
+def FS.write (fs : FS) (c : SinkCfg) (w : Nat × Bytes) : FS := fs.store c ((fs.view c).write w)
+
+/-- `sink.finalise(parts, keep_parts)` of sink `c` -/
+def FS.finalise (fixed : Bool) (fs : FS) (c : SinkCfg) (ps : List Nat) (keep : Bool) : FS × Option SinkErr :=
+  ((fs.store c (Sink.finalise fixed (fs.view c) ps keep).1), (Sink.finalise fixed (fs.view c) ps keep).2)
+
+/-- an operation of one of the live sinks -/
+inductive SinkOp where
+  | write (w : Nat × Bytes)
+  | finalise (ps : List Nat) (keep : Bool)
+  deriving Repr
+
+def FS.apply (fs : FS) (c : SinkCfg) : SinkOp → FS × Option SinkErr
+  | .write w => (fs.write c w, none)
+  | .finalise ps keep => fs.finalise true c ps keep
+
+/-- run interleaved operations of several sinks (`cfgs[i]` performs the ops tagged `i`) -/
+def FS.run (cfgs : List SinkCfg) : FS → List (Nat × SinkOp) → FS × List (Option SinkErr)
+  | fs, [] => (fs, [])
+  | fs, (i, op) :: rest =>
+    match cfgs[i]? with
+    | none => FS.run cfgs fs rest
+    | some c =>
+      let r := fs.apply c op
+      let rr := FS.run cfgs r.1 rest
+      (rr.1, r.2 :: rr.2)
+
+/-- a sink's own operations on its own view (the single-sink semantics) -/
+def Sink.apply (s : Sink) : SinkOp → Sink × Option SinkErr
+  | .write w => (s.write w, none)
+  | .finalise ps keep => Sink.finalise true s ps keep
+
+/-! ## Addresses and identities (`s3_parse_url`, `MultiPartUpload.url`, the dask tokens) -/
+
+/-- `s3_parse_url(url)` (_s3.py:41-46) on the text after a possible `s3://` prefix:
+`none` = the url does not start with `s3://` (the function then returns `("", "")`) -/
+def s3ParseUrl (url : String) : String × String :=
+  if url.startsWith "s3://" then
+    match ((url.drop 5).toString.splitOn "/") with
+    | [] => ("", "")
+    | bucket :: rest => (bucket, "/".intercalate rest)
+  else ("", "")
+
+/-- `MultiPartUpload.url` (_s3.py:132-134) -/
+def mpuUrl (bucket key : String) : String := "s3://" ++ bucket ++ "/" ++ key
+
+/-- `MultiPartUpload.__dask_tokenize__` (181-186): `(bucket, key, uploadId)` -/
+def mpuToken (bucket key uploadId : String) : List String := [bucket, key, uploadId]
+
+/-- `DelayedS3Writer.__dask_tokenize__` (318-319): `("odc.DelayedS3Writer", bucket, key)` - it must
+not depend on the mutable upload id: `_build_name` derives the Variable / Lock names from it -/
+def writerToken (bucket key _uploadId : String) : List String := ["odc.DelayedS3Writer", bucket, key]
+
+/-- `MPUFileSink.__dask_tokenize__` (94-95): `(dst, parts_dir)` -/
+def sinkToken (c : SinkCfg) : List String := [c.dir ++ "/" ++ c.name, c.partsDirPath]
+
 /-! ## Limits (`S3Limits` _s3.py:49-68, `MPUFileSink` _mpu_fs.py:37-51) -/
 
 /-- The accessors of the `PartsWriter` protocol (_mpu.py:42-52). -/
